@@ -17,7 +17,13 @@ Python dictionaries are association lists; `dict.update` is modelled by prependi
 finds the newest entry first).  That is faithful here because the code never iterates over the
 dictionaries that are updated with possibly repeated keys (`requested_row_blocks`,
 `restricted_equations`): it only looks names up in them, in the order of `self._equations`.
+
+The last section (`ofC05`) reads the variable table of the C05 model (degree-of-freedom layout,
+also core Lean only) so that the well-formedness of the variables can be taken from C05's proved
+invariant instead of being assumed.
 -/
+import PorepyVerif.C05.Model
+
 namespace PorepyVerif.C06
 
 inductive Err where
@@ -25,6 +31,7 @@ inductive Err where
   | type       -- TypeError
   | assertion  -- AssertionError
   | index      -- IndexError
+  | key        -- KeyError
 deriving DecidableEq, Repr
 
 abbrev GridId := Nat
@@ -70,6 +77,8 @@ structure Sys where
   vars : List Var                      -- `_variables` (creation order)
   eqs : List Equation                  -- `_equations` (dict order = order of setting)
   lastIdx : List (Nat × List Nat)      -- `assembled_equation_indices` (dict order)
+  sizeInfo : List (Nat × PerEntity)    -- `_equation_image_size_info` (newest entry first; NOT
+                                       -- cleaned by `remove_equation`, exactly as in the code)
 deriving DecidableEq, Repr
 
 /-! ### set_equation / remove_equation -/
@@ -98,10 +107,12 @@ def imageLoop (m : PerEntity) : List Grid → List GridId → Nat → List (Grid
     interfaces is accepted — modelled as coded.) -/
 def setEquation (sys : Sys) (name : Nat) (grids : List GridId) (m : PerEntity) : Except Err Sys :=
   if sys.hasEq name then .error .value
-  else if grids.isEmpty then .ok { sys with eqs := sys.eqs ++ [⟨name, []⟩] }
+  else if grids.isEmpty then
+    .ok { sys with eqs := sys.eqs ++ [⟨name, []⟩], sizeInfo := (name, m) :: sys.sizeInfo }
   else
     let r := imageLoop m sys.grids grids 0
-    if r.2.isEmpty then .ok { sys with eqs := sys.eqs ++ [⟨name, r.1⟩] }
+    if r.2.isEmpty then
+      .ok { sys with eqs := sys.eqs ++ [⟨name, r.1⟩], sizeInfo := (name, m) :: sys.sizeInfo }
     else .error .assertion
 
 /-- `remove_equation` -/
@@ -179,6 +190,34 @@ def parseSingle (sys : Sys) : Item → Except Err Blocks
 def lookup (name : Nat) : List (Nat × β) → Option β
   | [] => none
   | p :: rest => if p.1 = name then some p.2 else lookup name rest
+
+/-- `update_equation(name, new_equation, grids, equations_per_grid_entity)`: the defaults are read
+    from the stored image composition / size information (KeyError if missing), then the
+    equation is REMOVED and SET again, i.e. it moves to the END of the order.  If the second
+    step fails (unknown or repeated grid) the equation stays removed: the new state is returned
+    together with the error. -/
+def updateEquation (sys : Sys) (name : Nat) (grids : Option (List GridId)) (per : Option PerEntity) :
+    Sys × Option Err :=
+  let g? : Option (List GridId) := match grids with
+    | some g => some g
+    | none => match findEq sys.eqs name with
+      | some e => some (e.image.map (·.1))
+      | none => none
+  let p? : Option PerEntity := match per with
+    | some p => some p
+    | none => lookup name sys.sizeInfo
+  match g? with
+  | none => (sys, some .key)
+  | some g =>
+    match p? with
+    | none => (sys, some .key)
+    | some p =>
+      match removeEquation sys name with
+      | .error e => (sys, some e)
+      | .ok s1 =>
+        match setEquation s1 name g p with
+        | .error e => (s1, some e)
+        | .ok s2 => (s2, none)
 
 /-- `d.update(block)` -/
 def update (d block : List (Nat × β)) : List (Nat × β) := block.reverse ++ d
@@ -259,6 +298,17 @@ def jacLoop (ev : Nat → List Row) : Blocks → Nat → Except Err (List Row ×
       match jacLoop ev rest (nextStart bi s) with
       | .error e => .error e
       | .ok (rs, ix) => .ok (rows ++ rs, (name, bi) :: ix)
+
+/-- `assembled_equation_indices` as far as the Jacobian loop fills it: all blocks if every row
+    slicing succeeds, else the blocks before the first one that raises IndexError. -/
+def idxPrefix (ev : Nat → List Row) : Blocks → Nat → List (Nat × List Nat)
+  | [], _ => []
+  | (name, r) :: rest, s =>
+    match takeRows (ev name) r with
+    | .error _ => []
+    | .ok rows =>
+      let bi := (List.range rows.length).map (· + s)
+      (name, bi) :: idxPrefix ev rest (nextStart bi s)
 
 /-- The loop of the `evaluate_jacobian=False` branch (values only, no index bookkeeping). -/
 def resLoop (ev : Nat → List Row) : Blocks → Except Err (List Rat)
@@ -364,7 +414,7 @@ def assemble (sys : Sys) (ev : Nat → List Row) (jac : Bool) (req : Request)
   | .ok blocks =>
     if jac then
       match jacLoop ev blocks 0 with
-      | .error e => ({ sys with lastIdx := [] }, .error e)
+      | .error e => ({ sys with lastIdx := idxPrefix ev blocks 0 }, .error e)
       | .ok (rows, ix) =>
         match columnsOf sys vars with
         | .error e => ({ sys with lastIdx := ix }, .error e)
@@ -445,6 +495,7 @@ def requestedIds (sys : Sys) : Option (List VarItem) → Except Err (List Nat)
 inductive Op where
   | set (name : Nat) (grids : List GridId) (m : PerEntity)
   | remove (name : Nat)
+  | update (name : Nat) (grids : Option (List GridId)) (m : Option PerEntity)
   | assemble (ev : Nat → List Row) (jac : Bool) (req : Request) (vars : Option (List VarItem))
 
 /-- a failing `set_equation` / `remove_equation` leaves the system unchanged -/
@@ -457,12 +508,13 @@ def applyOp (sys : Sys) : Op → Sys
     match removeEquation sys n with
     | .ok s => s
     | .error _ => sys
+  | .update n gs m => (updateEquation sys n gs m).1
   | .assemble ev jac req vars => (assemble sys ev jac req vars).1
 
 def run (sys : Sys) (ops : List Op) : Sys := ops.foldl applyOp sys
 
 /-- `EquationSystem(mdg)` after the variables have been created -/
-def init (grids : List Grid) (vars : List Var) : Sys := ⟨grids, vars, [], []⟩
+def init (grids : List Grid) (vars : List Var) : Sys := ⟨grids, vars, [], [], []⟩
 
 /-- declared number of rows of an equation -/
 def Equation.total (e : Equation) : Nat := (e.image.flatMap (·.2)).length
@@ -479,11 +531,28 @@ def Sys.Inv (sys : Sys) : Prop :=
 def Consistent (sys : Sys) (ev : Nat → List Row) : Prop :=
   ∀ e ∈ sys.eqs, (ev e.name).length = e.total
 
+/-- The weaker condition the slice theorems really need: every evaluated operator has AT LEAST
+    the declared number of rows (surplus rows are reachable only through unrestricted requests). -/
+def Covers (sys : Sys) (ev : Nat → List Row) : Prop :=
+  ∀ e ∈ sys.eqs, e.total ≤ (ev e.name).length
+
+/-- A request touches a row the evaluated operator does not have: some equation is requested
+    with a grid restriction whose local rows reach beyond the operator's length. -/
+def OutOfRange (sys : Sys) (ev : Nat → List Row) (req : Request) : Prop :=
+  ∃ e ∈ sys.eqs, ∃ idx, req.sel e = some (some idx) ∧ ∃ i ∈ idx, (ev e.name).length ≤ i
+
 /-- Well-formed variable table (the DOF layout itself is property C05): distinct variable ids,
     distinct grid ids, every variable lives on a grid of the md-grid. -/
 def Sys.VarsOk (sys : Sys) : Prop :=
   (sys.vars.map (·.id)).Nodup ∧ (sys.grids.map (·.id)).Nodup ∧
     ∀ v ∈ sys.vars, v.grid ∈ sys.grids.map (·.id)
+
+/-- The C06 view of a state of the C05 model: its md-grid listing and its registered variables
+    (dof counts = `C05.varSize`), no equations yet. -/
+def ofC05 (e : C05.Env) (s : C05.State) : Sys :=
+  ⟨e.subs.map (fun g => ⟨g, false, e.cells g, e.faces g, e.nodes g⟩) ++
+     e.intfs.map (fun g => ⟨g, true, e.cells g, 0, 0⟩),
+   s.vars.map (fun v => ⟨v.id, v.name, v.grid, C05.varSize e v⟩), [], [], []⟩
 
 /-- the error of a result, if any (for stating concrete examples) -/
 def errOf : Except Err α → Option Err
@@ -501,6 +570,12 @@ def mkVar (grids : List Grid) (id name : Nat) (grid : GridId) (m : PerEntity) : 
 def splitFull : List Equation → List Row → List (Nat × List Row)
   | [], _ => []
   | e :: es, rows => (e.name, rows.take e.total) :: splitFull es (rows.drop e.total)
+
+/-- split rows into consecutive chunks of given lengths (the driver uses it when the harness
+    announces operators whose length differs from the declared one) -/
+def splitBy : List (Nat × Nat) → List Row → List (Nat × List Row)
+  | [], _ => []
+  | (name, len) :: rest, rows => (name, rows.take len) :: splitBy rest (rows.drop len)
 
 def evOf (tbl : List (Nat × List Row)) (name : Nat) : List Row := (lookup name tbl).getD []
 
